@@ -530,3 +530,71 @@ def terrestrial_time(vc):
     secs = h * 3600 + mi * 60 + s + dat + 32.184
     vc.ensure("O-C04-tt.seconds", vc.eq(tt, secs, 1e-9))
     vc.ensure("O-C04-tt.continuous", vc.eq(ttt * 36525, midnight + secs / 86400 - 2451545, 1e-7) if vc.symbolic else abs(ttt * 36525 - (midnight + secs / 86400 - 2451545)) < 1e-8)
+
+
+@obligation("C04", "radec_bounded", ensures=["B-C04-radec.razel-roundtrip", "B-C04-radec.radec-roundtrip", "B-C04-radec.rigid", "B-C04-radec.definition"],
+            fns=[TM + "razel2radec", TM + "radec2razel", TM + "eci2radec", TM + "eci2razel", TM + "spherical2cartesian", TM + "cartesian2spherical"], mode="R",
+            native_only=True, samples=400,
+            bounded="BOUNDED stand-in, not a proof: 400 (quick) / 4000 (thorough) sampled (observer site, target state, epoch) triples per run on the real functions; "
+                    "the composition needs arcsin(sin t) = t and angle-from-(sin, cos) uniqueness together with the unproved ecef2lla, outside what the solvers decided here",
+            note="range-azimuth-elevation <-> topocentric right-ascension/declination: both round trips reproduce the six values (angles modulo a turn), the range and range rate are the same in both "
+                 "descriptions, and right ascension/declination are the spherical angles of the inertial line-of-sight vector target - observer")
+def radec_bounded(vc):
+    import datetime
+    from resonaate.physics.transforms import methods as M_
+    lat, lon, alt = vc.real("lat", -1.5, 1.5), vc.real("lon", -3.1, 3.1), vc.real("alt", 0, 5)
+    utc = datetime.datetime(2014, 6, 1) + datetime.timedelta(seconds=vc.int("secs", 0, 86400 * 3000))
+    obs = M_.ecef2eci(np.concatenate([M_.lla2ecef(np.array([lat, lon, alt]))[:3], np.zeros(3)]), utc)
+    rel = vc.vec("rel", 3, -4e4, 4e4)
+    vc.assume(np.linalg.norm(rel) > 100)
+    tgt = np.concatenate([obs[:3] + rel, vc.vec("tv", 3, -8, 8)])
+    razel = np.array(M_.eci2razel(tgt, obs, utc))
+    vc.assume(abs(razel[1]) < 1.5)  # away from the zenith axis (angular rates are undefined there)
+    radec = np.array(M_.razel2radec(*razel, observer_eci=obs, utc_date=utc))
+    vc.assume(abs(radec[1]) < 1.5)
+    back = np.array(M_.radec2razel(*radec, observer_eci=obs, utc_date=utc))
+    wrap = lambda a: (a + np.pi) % (2 * np.pi) - np.pi
+    d1 = back - razel
+    d1[2] = wrap(d1[2])
+    vc.ensure("B-C04-radec.razel-roundtrip", bool(np.all(np.abs(d1) < 1e-7 * np.array([abs(razel[0]) + 1, 1, 1, 1, 1, 1]))))
+    radec2 = np.array(M_.razel2radec(*back, observer_eci=obs, utc_date=utc))
+    d2 = radec2 - radec
+    d2[2] = wrap(d2[2])
+    vc.ensure("B-C04-radec.radec-roundtrip", bool(np.all(np.abs(d2) < 1e-7 * np.array([abs(radec[0]) + 1, 1, 1, 1, 1, 1]))))
+    vc.ensure("B-C04-radec.rigid", abs(radec[0] - razel[0]) < 1e-7 * (razel[0] + 1) and abs(radec[3] - razel[3]) < 1e-7)
+    rho = (tgt - obs)[:3]
+    dec = np.arcsin(rho[2] / np.linalg.norm(rho))
+    ra = np.arctan2(rho[1], rho[0]) % (2 * np.pi)
+    direct = np.array(M_.eci2radec(tgt, obs, utc))
+    vc.ensure("B-C04-radec.definition", abs(radec[1] - dec) < 1e-7 and abs(wrap(radec[2] - ra)) < 1e-7 and abs(radec[0] - np.linalg.norm(rho)) < 1e-6
+              and bool(np.allclose(direct, radec, atol=1e-9, rtol=1e-9)))
+
+
+@obligation("C04", "lla_inverse_bounded", ensures=["B-C04-lla.ecef2lla-lla2ecef", "B-C04-lla.lla2ecef-ecef2lla", "B-C04-lla.ranges"],
+            fns=[TM + "ecef2lla", TM + "lla2ecef"], mode="R", native_only=True, samples=600,
+            bounded="BOUNDED stand-in, not a proof: 600 (quick) / 6000 (thorough) sampled positions per run from the surface to 10 Earth radii incl. exact poles, equator and antimeridian; "
+                    "ecef2lla is an iterative/closed-form inverse outside the solvers' reach (lla2ecef itself is proved: O-C04-lla-fwd.*)",
+            note="Earth-fixed <-> geodetic: ecef2lla inverts lla2ecef and vice versa to a millimetre; latitude in [-pi/2, pi/2], longitude in (-pi, pi]")
+def lla_inverse_bounded(vc):
+    from resonaate.physics.transforms import methods as M_
+    special = vc.int("special", 0, 9)
+    lat = vc.real("lat", -np.pi / 2, np.pi / 2)
+    lon = vc.real("lon", -np.pi, np.pi)
+    alt = vc.real("alt", 0, 9 * 6378.0)
+    if special == 0:
+        lat = np.pi / 2 * (1 if lon > 0 else -1)
+    elif special == 1:
+        lat = 0.0
+    elif special == 2:
+        lon = np.pi
+    elif special == 3:
+        alt = 0.0
+    lla = np.array([lat, lon, alt])
+    ecef = M_.lla2ecef(lla)
+    got = np.asarray(M_.ecef2lla(ecef), dtype=float)
+    ok_lat = abs(got[0] - lat) < 1e-9
+    ok_lon = abs(np.cos(lat)) < 1e-9 or abs((got[1] - lon + np.pi) % (2 * np.pi) - np.pi) < 1e-9
+    vc.ensure("B-C04-lla.ecef2lla-lla2ecef", bool(ok_lat and ok_lon and abs(got[2] - alt) < 1e-6))
+    back = M_.lla2ecef(got)
+    vc.ensure("B-C04-lla.lla2ecef-ecef2lla", bool(np.linalg.norm(back[:3] - ecef[:3]) < 1e-6))
+    vc.ensure("B-C04-lla.ranges", bool(-np.pi / 2 - 1e-12 <= got[0] <= np.pi / 2 + 1e-12 and -np.pi - 1e-12 <= got[1] <= np.pi + 1e-12))
